@@ -238,7 +238,8 @@ def _build(spec):
         # a relative-pressure record for which no pressure unit is mentioned at all (the constructor's defaults apply)
         s2 = dict(spec, units={k: v for k, v in spec["units"].items() if k != "pressure_unit"})
         return gen.build_point(s2, "df")
-    return gen.build_point(spec, "df")
+    # (every third record comes from a table with the user's own column names, in another column order)
+    return gen.build_point(spec, "df_cols" if _BUILD[0] % 3 == 0 else "df")
 
 
 def _spec_for(r, units, ads, T, mat_props, extras=True, n=None):
